@@ -31,7 +31,7 @@ theorem msgOfPayload_text (payload : Bytes) :
     simp [hs]
 
 /-- the incremental validator state after the text bytes `pre` of the current message -/
-theorem validate_prefix (pre chunk : Bytes) (d : Nat) (h : Utf8.validate 0 pre = some d) :
+theorem validate_after_prefix (pre chunk : Bytes) (d : Nat) (h : Utf8.validate 0 pre = some d) :
     Utf8.validate d chunk = Utf8.validate 0 (pre ++ chunk) := by
   rw [Utf8.validate_append, h]; rfl
 
@@ -41,7 +41,7 @@ theorem validate_prefix (pre chunk : Bytes) (d : Nat) (h : Utf8.validate 0 pre =
 theorem validate_none_iff (pre chunk : Bytes) (d : Nat) (h : Utf8.validate 0 pre = some d)
     (hw : Bytes.WF (pre ++ chunk)) :
     Utf8.validate d chunk = none ↔ ∀ ext, Utf8.wf (pre ++ chunk ++ ext) = false := by
-  rw [validate_prefix pre chunk d h]
+  rw [validate_after_prefix pre chunk d h]
   have hr := Utf8.run_eq_srun 0 (pre ++ chunk) (by decide) hw
   rw [Utf8.validate_eq_run 0 _ (by decide) (by decide) hw]
   constructor
